@@ -155,6 +155,11 @@ var strictCtx = []string{"%s", "(%s)", "%s.a", "%s[0]", "%s[*]", "%s[]", "%s[?a]
 	"arr[*].{k: %s}", "empty || %s", "arr && %s", "abs(%s)", "not_null(%s)", "not_null(a, %s)", "to_array(%s)", "length(%s)", "type(%s)", "merge(obj, %s)",
 	"contains(arr, %s)", "sort_by(arr, &%s)", "map(&%s, arr)", "max_by(arr, &%s)", "map(&a, %s)", "arr[].%s", "obj.*.%s | @", "arr[0:2].%s", "to_string(%s)", "arr[*].a | %s"}
 
+// Strict contexts whose hole is evaluated against the root document (usable as the outer layer of a nesting).
+var rootStrictCtx = []string{"%s", "(%s)", "%s.a", "%s[0]", "%s[*]", "%s[]", "%s[?a]", "%s.*", "%s[1:]", "%s | a", "%s || a", "%s && a", "!%s",
+	"%s == a", "a == %s", "%s < a", "a < %s", "nums[0] < %s", "%s >= nums[0]", "[a, %s]", "[%s]", "{k: %s}", "{k: a, j: %s}", "empty || %s", "arr && %s",
+	"abs(%s)", "not_null(%s)", "not_null(a, %s)", "to_array(%s)", "length(%s)", "type(%s)", "merge(obj, %s)", "contains(arr, %s)", "map(&a, %s)", "to_string(%s)"}
+
 // Contexts in which the hole is legitimately not evaluated.
 var lazyCtx = []string{"[?%s]", "arr || %s", "empty && %s", "empty[*].%s", "empty[?%s]", "nosuchfield[*].%s", "a.b[].%s", "empty[0:1].%s", "map(&%s, empty)", "a.*.%s", "sort_by(empty, &%s)"}
 
@@ -163,7 +168,7 @@ var errDoc = mustJSON(`{"a":1,"arr":[{"a":1},{"a":2}],"nums":[1,2],"obj":{"x":{"
 func errCtxCount(depth2 bool) int {
 	n := len(errSeeds) * (len(strictCtx) + len(lazyCtx))
 	if depth2 {
-		n += len(errSeeds) * len(strictCtx) * len(strictCtx)
+		n += len(errSeeds) * len(rootStrictCtx) * len(strictCtx)
 	}
 	return n
 }
@@ -182,7 +187,7 @@ func streamErrCtx(seed uint64, idx int) caseT {
 		return caseT{lines: []string{"S " + hexField(fill(lazyCtx[k], seedE)) + " " + canonOf(errDoc)}, note: "lazy"}
 	}
 	k -= len(lazyCtx)
-	outer, inner := strictCtx[k%len(strictCtx)], strictCtx[(k/len(strictCtx))%len(strictCtx)]
+	outer, inner := rootStrictCtx[k%len(rootStrictCtx)], strictCtx[(k/len(rootStrictCtx))%len(strictCtx)]
 	// the outer hole must still be evaluated against a value for which the inner context is strict:
 	// keep to outer contexts that evaluate the hole against the root document
 	e := fill(outer, "("+fill(inner, seedE)+")")
@@ -380,6 +385,20 @@ var rootCtx = []string{"%s", "[%s, @]", "{k: %s}", "%s || a", "a && %s", "!%s", 
 func streamSubst(seed uint64, idx int) caseT {
 	g := genFor(seed, "subst", idx)
 	g.single = true // literals of objects must iterate identically
+	if g.r.chance(25) {
+		// aliasing: the hole's value is used twice, once through an operation that must not modify it
+		g.single = false
+		doc := map[string]interface{}{"items": g.objArray(), "nums": g.literalOfType("anum"), "o": map[string]interface{}{"a": 1.0}}
+		ctx := g.r.pick([]string{"[%s, sort_by(%s, &a)]", "[sort_by(%s, &a), %s]", "[%s, reverse(%s)]", "[%s[0], sort_by(%s, &a)[0]]", "[%s, merge(o, `{\"z\":1}`), o]",
+			"[%s, to_array(%s)[?a]]", "[%s, map(&a, %s)]", "{x: %s, y: sort_by(%s, &n)}", "[%s, max_by(%s, &a), min_by(%s, &a)]", "[%s, sort_by(%s, &a), %s]", "[nums, sort(nums), nums]"})
+		es := "items"
+		parts := strings.SplitN(ctx, "%s", 2)
+		if len(parts) < 2 {
+			parts = []string{"[", ", nums, sort(nums)]"}
+			es = "nums"
+		}
+		return caseT{lines: []string{"R " + hexField(parts[0]) + " " + hexField(es) + " " + hexField(strings.Replace(parts[1], "%s", es, -1)) + " " + canonOf(doc)}}
+	}
 	doc := topDoc(g)
 	ctx := g.r.pick(rootCtx)
 	e := g.expr(doc, 1+g.r.intn(3))
@@ -479,3 +498,51 @@ func streamCLI(seed uint64, idx int) caseT {
 	mode := g.r.pick([]string{"s", "f", "s", "f", "s", "f", "m", "a0", "a2"})
 	return caseT{lines: []string{"X " + mode + " " + hexField(expr) + " " + hexField(input)}}
 }
+
+// fnseq (C10): the same function called several times within one Search (and
+// hence one interpreter / function table) on arguments of different types.
+func streamFnSeq(seed uint64, idx int) caseT {
+	g := genFor(seed, "fnseq", idx)
+	sig := fnSigs[idx%len(fnSigs)]
+	n := 2 + g.r.intn(3)
+	arr := make([]interface{}, n)
+	pool := []string{"`null`", "`true`", "`1`", "`\"a\"`", "`[]`", "`[1,2]`", "`[\"a\",\"b\"]`", "`[1,\"a\"]`", "`[{\"a\":1},{\"a\":2}]`", "`{}`", "`{\"a\":1}`", "`[2,1]`", "`[[1,2],[1,\"a\"]]`", "`\"\"`", "`2.5`"}
+	for i := range arr {
+		arr[i] = mustJSON(strings.Trim(pool[g.r.intn(len(pool))], "`"))
+	}
+	second := ""
+	if len(sig.params) > 1 || sig.varia {
+		if len(sig.params) > 1 && sig.params[1] == "expref" {
+			second = ", &a"
+		} else {
+			second = ", " + pool[g.r.intn(len(pool))]
+		}
+	}
+	call := sig.name + "(@" + second + ")"
+	if len(sig.params) > 0 && sig.params[0] == "expref" {
+		call = sig.name + "(&a, @)"
+	}
+	var e string
+	switch g.r.intn(4) {
+	case 0:
+		e = "[*]." + call
+	case 1:
+		e = "map(&" + call + ", @)"
+	case 2:
+		e = "[?" + call + "]"
+	default:
+		parts := []string{}
+		for i := range arr {
+			parts = append(parts, strings.Replace(call, "@", "@["+strconv.Itoa(i)+"]", 1))
+		}
+		e = "[" + strings.Join(parts, ", ") + "]"
+	}
+	op := "S"
+	if sig.name == "keys" || sig.name == "values" {
+		op = "SU"
+		e = "[*]." + call + "[]"
+	}
+	return caseT{lines: []string{op + " " + hexField(e) + " " + canonOf(arr)}}
+}
+
+func init() { streamTable["fnseq"] = streamFnSeq }
